@@ -32,6 +32,10 @@ pub enum Ty {
     Iter(Box<Ty>),
     Never,
     Fn(Vec<Ty>, Box<Ty>),
+    /// the random source of a sampler (`R: rand::Rng`, always behind `&mut`): `Statrs.Model.Rng`
+    Rng,
+    /// `rand::distributions::Uniform<f64>`: `Statrs.Model.UniformFloat α`
+    RandUniform,
     Unknown(String),
 }
 
@@ -85,6 +89,8 @@ pub struct FnInfo {
     pub tybind: HashMap<String, Ty>,
     pub cfg_rand: bool,
     pub param_ref: Vec<u8>, // 0 = by value, 1 = &, 2 = &mut
+    /// generic only over the random source (`R: Rng`) and closure types: translated with an explicit `Rng` state
+    pub rng_generic: bool,
 }
 
 #[derive(Clone)]
@@ -130,6 +136,7 @@ pub struct Index {
     pub traits: BTreeMap<String, TraitInfo>,
     pub fn_by_name: HashMap<String, Vec<String>>,
     pub const_by_name: HashMap<String, Vec<String>>,
+    pub aliases: BTreeMap<String, Ty>,
 }
 
 pub fn join(p: &[String]) -> String {
@@ -252,7 +259,9 @@ impl Index {
         // second pass: Unknown("Name") that is a struct/enum -> Struct/Enum
         let snames: Vec<String> = self.structs.keys().cloned().collect();
         let enames: Vec<String> = self.enums.keys().cloned().collect();
-        fn fix(t: &mut Ty, s: &[String], e: &[String]) {
+        let aliases = self.aliases.clone();
+        let al = &aliases;
+        fn fix(t: &mut Ty, s: &[String], e: &[String], al: &BTreeMap<String, Ty>) {
             match t {
                 Ty::Unknown(n) => {
                     let base = n.split('<').next().unwrap().trim().rsplit("::").next().unwrap().trim().to_string();
@@ -260,40 +269,46 @@ impl Index {
                         *t = Ty::Struct(base);
                     } else if e.contains(&base) {
                         *t = Ty::Enum(base);
+                    } else if let Some(a) = al.get(&base) {
+                        *t = a.clone();
                     }
                 }
-                Ty::Opt(a) | Ty::List(a) | Ty::Iter(a) => fix(a, s, e),
+                Ty::Opt(a) | Ty::List(a) | Ty::Iter(a) => fix(a, s, e, al),
                 Ty::Res(a, b) => {
-                    fix(a, s, e);
-                    fix(b, s, e)
+                    fix(a, s, e, al);
+                    fix(b, s, e, al)
                 }
-                Ty::Tuple(v) => v.iter_mut().for_each(|x| fix(x, s, e)),
+                Ty::Tuple(v) => v.iter_mut().for_each(|x| fix(x, s, e, al)),
+                Ty::Fn(ins, out) => {
+                    ins.iter_mut().for_each(|x| fix(x, s, e, al));
+                    fix(out, s, e, al)
+                }
                 _ => {}
             }
         }
         for f in self.fns.values_mut() {
             for (_, t) in f.params.iter_mut() {
-                fix(t, &snames, &enames);
+                fix(t, &snames, &enames, al);
             }
-            fix(&mut f.ret, &snames, &enames);
+            fix(&mut f.ret, &snames, &enames, al);
             for t in f.trait_args.iter_mut() {
-                fix(t, &snames, &enames);
+                fix(t, &snames, &enames, al);
             }
             for t in f.tybind.values_mut() {
-                fix(t, &snames, &enames);
+                fix(t, &snames, &enames, al);
             }
         }
         for s in self.structs.values_mut() {
             for (_, t) in s.fields.iter_mut() {
-                fix(t, &snames, &enames);
+                fix(t, &snames, &enames, al);
             }
         }
         for c in self.consts.values_mut() {
-            fix(&mut c.ty, &snames, &enames);
+            fix(&mut c.ty, &snames, &enames, al);
         }
         for e in self.enums.values_mut() {
             for p in e.payloads.iter_mut().flatten() {
-                fix(p, &snames, &enames);
+                fix(p, &snames, &enames, al);
             }
         }
         // struct support / has_float (iterate to fixpoint)
@@ -338,6 +353,7 @@ pub fn load(src: &Path) -> Index {
         traits: BTreeMap::new(),
         fn_by_name: HashMap::new(),
         const_by_name: HashMap::new(),
+        aliases: BTreeMap::new(),
     };
     let mut files: Vec<PathBuf> = vec![];
     fn walk(d: &Path, out: &mut Vec<PathBuf>) {
@@ -520,6 +536,12 @@ fn index_items(idx: &mut Index, module: &[String], file: &str, items: &[Item], t
                 if generic {
                     // generic structs (Data<D>, MultivariateNormal<D>, ...) are hand-modelled
                     idx.structs.get_mut(&s.ident.to_string()).unwrap().fields.push(("__generic".into(), Ty::Unknown("generic".into())));
+                }
+            }
+            Item::Type(t) if traits_pass && t.generics.params.is_empty() => {
+                let ty = conv_type(&t.ty, &HashMap::new());
+                if !matches!(ty, Ty::Unknown(_)) {
+                    idx.aliases.insert(t.ident.to_string(), ty);
                 }
             }
             Item::Enum(e) if traits_pass => {
@@ -725,7 +747,7 @@ fn index_items(idx: &mut Index, module: &[String], file: &str, items: &[Item], t
 }
 
 #[allow(clippy::too_many_arguments)]
-fn mk_fn(
+pub fn mk_fn(
     module: &[String],
     file: &str,
     self_ty: Option<String>,
@@ -791,6 +813,86 @@ fn mk_fn(
             ReturnType::Type(_, t) => conv_type(t, &bind2),
         };
     }
+    // generic only over the random source (`R: Rng + ?Sized`) and closure types (`P: FnMut(f64) -> f64`,
+    // `Z: FnMut(&mut R, f64) -> f64`): the type parameters are bound to `Ty::Rng` / `Ty::Fn`
+    let mut rng_generic = false;
+    if generic {
+        let tparams: Vec<&TypeParam> = sig
+            .generics
+            .params
+            .iter()
+            .filter_map(|g| match g {
+                GenericParam::Type(t) => Some(t),
+                _ => None,
+            })
+            .collect();
+        let bounds_of = |tp: &TypeParam| -> Vec<TypeParamBound> {
+            let mut v: Vec<TypeParamBound> = tp.bounds.iter().cloned().collect();
+            if let Some(w) = &sig.generics.where_clause {
+                for pr in &w.predicates {
+                    if let WherePredicate::Type(pt) = pr {
+                        if let Type::Path(tp2) = &pt.bounded_ty {
+                            if tp2.path.is_ident(&tp.ident) {
+                                v.extend(pt.bounds.iter().cloned());
+                            }
+                        }
+                    }
+                }
+            }
+            v
+        };
+        let mut b3 = bind2.clone();
+        let mut has_rng = false;
+        let mut classified = 0usize;
+        for tp in &tparams {
+            let is_rng = bounds_of(tp).iter().any(|b| match b {
+                TypeParamBound::Trait(tb) => tb.path.segments.last().map(|s| s.ident == "Rng").unwrap_or(false),
+                _ => false,
+            });
+            if is_rng {
+                b3.insert(tp.ident.to_string(), Ty::Rng);
+                has_rng = true;
+                classified += 1;
+            }
+        }
+        for tp in &tparams {
+            if b3.contains_key(&tp.ident.to_string()) {
+                continue;
+            }
+            for b in bounds_of(tp) {
+                if let TypeParamBound::Trait(tb) = &b {
+                    let last = tb.path.segments.last().unwrap();
+                    if last.ident == "Fn" || last.ident == "FnMut" || last.ident == "FnOnce" {
+                        if let PathArguments::Parenthesized(pa) = &last.arguments {
+                            let ins: Vec<Ty> = pa.inputs.iter().map(|t| conv_type(t, &b3)).collect();
+                            let out = match &pa.output {
+                                ReturnType::Type(_, t) => conv_type(t, &b3),
+                                ReturnType::Default => Ty::Unit,
+                            };
+                            b3.insert(tp.ident.to_string(), Ty::Fn(ins, Box::new(out)));
+                            classified += 1;
+                            break;
+                        }
+                    }
+                }
+            }
+        }
+        if has_rng && classified == tparams.len() {
+            rng_generic = true;
+            generic = false;
+            bind2 = b3;
+            params.clear();
+            for a in &sig.inputs {
+                if let FnArg::Typed(pt) = a {
+                    params.push(((*pt.pat).clone(), conv_type(&pt.ty, &bind2)));
+                }
+            }
+            ret = match &sig.output {
+                ReturnType::Default => Ty::Unit,
+                ReturnType::Type(_, t) => conv_type(t, &bind2),
+            };
+        }
+    }
     let bind = &bind2;
     let (key, lean_name) = match &self_ty {
         Some(s) => (format!("{}::{}", s, name), format!("{}.{}", s, name)),
@@ -816,5 +918,6 @@ fn mk_fn(
         tybind: bind.clone(),
         cfg_rand,
         param_ref,
+        rng_generic,
     }
 }
